@@ -730,10 +730,78 @@ def run_batch(ctx, n, allow, length=(8, 30), label='history', kinds=None, oracle
                 if a != b:
                     ctx.diverge('store-machine', {**case, 'spec': spec, 'variants_full': variants}, {'op_index': maps['keep'][k], 'op': ops[maps['keep'][k]], 'impl': a}, {'model': b})
                     break
+        n_before = len(ctx.failures)
         unexpected_oracle(ctx, {**case, 'spec': spec, 'variants_full': variants}, hist)
         if oracle:
             oracle(ctx, {**case, 'spec': spec, 'variants_full': variants}, hist, maps, spec)
+        if len(ctx.failures) > n_before and not ctx.notes.get('shrunk_history'):
+            # the first failing history of a run is shrunk (operations removed one by one while the oracle keeps failing on the real code)
+            ctx.notes['shrunk_history'] = True
+            small = shrink_history(spec, variants, ops, root / f'{label}-shrink', oracle, stamp)
+            if small is not None:
+                for f_ in ctx.failures[n_before:]:
+                    f_['minimal_ops'] = small
+                ctx.notes['shrunk_history'] = f'{len(ops)} -> {len(small)} operations'
         hist['built'].cleanup_module()
+
+
+class _Probe:
+    """stands in for the run context while a shortened history is judged by the oracle"""
+    def __init__(self):
+        self.failures, self.notes, self.counts = [], {}, {}
+
+    def fail(self, what, case, detail=None, known=None):
+        if known is None:
+            self.failures.append(what)
+
+    def count(self, *a, **k):
+        pass
+
+    def case(self, *a, **k):
+        pass
+
+    def diverge(self, *a, **k):
+        pass
+
+
+def shrink_history(spec, variants, ops, root, oracle, stamp, budget=40):
+    """delta debugging, one operation at a time from the end; chains are numbered by the `build` operations before them, so only
+    operations other than build/restart are candidates.  Returns the shortened list, or None if nothing could be removed."""
+    def fails(cand, k):
+        try:
+            hist = run_history(spec, variants, cand, root / f's{k}', stamp=stamp)
+        except Exception:  # noqa
+            return False
+        try:
+            if any(r.get('error') for r in hist['rec']):
+                return False
+            seg = portable(hist, spec)
+            _, io = assemble([seg])
+            maps = {'objs': topo_objects(hist['chains']), 'keep': seg['keep'], 'io': io}
+            p = _Probe()
+            unexpected_oracle(p, {}, hist)
+            if oracle:
+                oracle(p, {}, hist, maps, spec)
+            return bool(p.failures)
+        except Exception:  # noqa
+            return False
+        finally:
+            hist['built'].cleanup_module()
+    cur, k, i = list(ops), 0, len(ops) - 1
+    while i >= 0 and k < budget:
+        if i < len(cur) and cur[i]['op'] not in ('build', 'restart'):
+            k += 1
+            cand = cur[:i] + cur[i + 1:]
+            if fails(cand, k):
+                cur = cand
+        i -= 1
+    # constructions after the last remaining operation address no later operation: they can go too
+    while len(cur) > 1 and cur[-1]['op'] in ('build', 'restart') and k < budget + 10:
+        k += 1
+        if not fails(cur[:-1], k):
+            break
+        cur = cur[:-1]
+    return cur if len(cur) < len(ops) else None
 
 
 def closure_used(task, spec, acc=None):
